@@ -410,8 +410,8 @@ class C04:
             print("[%s] ERROR: the harness does not build against the repository's working tree" % pid)
             write_evidence(pid, tier, seed, dict(obligations=proof["obligations"], discharged=0, checker_cmd="make Props/%s.vo" % pid,
                                                  trusted_base=TRUSTED, evaluations=0, distinct_nontrivial=0, rule=self.rule, samples=[],
-                                                 explanation="harness build failed"), self.assumptions, time.time() - t0, 0)
-            return 2
+                                                 explanation="harness build failed"), self.assumptions, time.time() - t0, 1)
+            return harness_broken(pid, tier, seed, out_h)
         if not os.path.exists(os.path.join(COQ, "Spec", "SpecC04.vo")):
             print("[%s] ERROR: Spec/SpecC04.vo was not built" % pid)
             print(proof["log"][-2500:])
